@@ -318,12 +318,25 @@ func (e *Engine) onData(pkt *spec.Data, sigCovered enc.Wire, raw enc.Wire, pitTo
 func (e *Engine) onNack(name enc.Name, reason uint64) {
 	e.pitLock.Lock()
 	defer e.pitLock.Unlock()
-	n := e.pit.ExactMatch(name)
+	// An Interest with an implicit digest is pending under its name without
+	// the digest component; the Nack concerns only the Interests of its name.
+	nodeName := name
+	var impSha256 []byte = nil
+	if len(name) > 0 && name[len(name)-1].Typ == enc.TypeImplicitSha256DigestComponent {
+		impSha256 = name[len(name)-1].Val
+		nodeName = name[:len(name)-1]
+	}
+	n := e.pit.ExactMatch(nodeName)
 	if n == nil {
 		e.log.WithField("name", name.String()).Warn("Received Nack for an unknown interest. Drop.")
 		return
 	}
+	remaining := make([]*pendInt, 0, len(n.Value()))
 	for _, entry := range n.Value() {
+		if (entry.impSha256 == nil) != (impSha256 == nil) || !bytes.Equal(entry.impSha256, impSha256) {
+			remaining = append(remaining, entry)
+			continue
+		}
 		entry.timeoutCancel()
 		if entry.callback != nil {
 			entry.callback(ndn.ExpressCallbackArgs{
@@ -335,7 +348,7 @@ func (e *Engine) onNack(name enc.Name, reason uint64) {
 		}
 	}
 	// Interests pending on longer names stay in the PIT
-	n.SetValue(nil)
+	n.SetValue(remaining)
 	n.DeleteIf(func(lst []*pendInt) bool {
 		return len(lst) == 0
 	})
